@@ -28,6 +28,7 @@ import numpy as np
 from vf.models.base import Model
 
 LAST = 2
+OVERFLOW_SIG = "agent connected its last node on the final step but the state does not record it"
 
 
 class M(Model):
@@ -152,13 +153,24 @@ class M(Model):
         out = list(self.constraints(s))
         flags = np.asarray(s.finished_agents).astype(bool).tolist()
         cn = np.asarray(s.connected_nodes, np.int64)
-        missing = {a: [x for x in self._todo(s, a) if x not in set(cn[a].tolist())] for a in range(self.A)}
-        missing = {a: v for a, v in missing.items() if v}
-        if not all(flags) or missing:
-            out.append(("every agent reached all its nodes but finished_agents / connected_nodes do not show it",
-                        f"finished_agents={flags} nodes missing from connected_nodes={missing} "
-                        f"step_count={int(s.step_count)} time_limit={self.T} "
-                        f"position_index={np.asarray(s.position_index).tolist()}"))
+        pidx = np.asarray(s.position_index, np.int64)
+        pos = np.asarray(s.positions, np.int64)
+        for a in range(self.A):
+            missing = [x for x in self._todo(s, a) if x not in set(cn[a].tolist())]
+            if flags[a] and not missing:
+                continue
+            # connected_nodes has time_limit columns: start node + time_limit moves do not fit, the scatter of
+            # the last move is dropped silently when the agent moved on every step of the episode
+            overflow = (int(pidx[a]) >= cn.shape[1] and int(s.step_count) >= self.T and missing == [int(pos[a])])
+            if overflow:
+                out.append((OVERFLOW_SIG,
+                            f"agent {a} reached node {int(pos[a])} on step {int(s.step_count)} = time_limit; "
+                            f"connected_nodes[{a}]={cn[a].tolist()} (time_limit columns, no slot for move "
+                            f"{int(pidx[a])}), finished_agents={flags}"))
+            else:
+                out.append(("every agent reached all its nodes but finished_agents / connected_nodes do not show it",
+                            f"agent {a}: finished_agents={flags} nodes missing from connected_nodes={missing} "
+                            f"step_count={int(s.step_count)} time_limit={self.T} position_index={pidx.tolist()}"))
         return out
 
     # ------------------------------------------------------------------------------ C08
@@ -203,6 +215,63 @@ class M(Model):
             prev = s
         return total, slack
 
+    # ---------------------------------------------------------------------------- solver ('solve' plans)
+    def solve_action(self, s, r=0):
+        """Joint action of a constructive policy: every unfinished agent takes the first hop of a shortest
+        rule-legal path *inside its own node block* to the nearest of its nodes it has not connected yet
+        (the split generator guarantees such a path); finished or stuck agents name their own node, which is
+        never an edge and therefore cannot win a tie-break against a walking agent."""
+        adj = self._adj(s)
+        pos = np.asarray(s.positions, np.int64)
+        visited = self._visited(s)
+        fin = self._finished(s, visited)
+        legal = self.legal(s)
+        types = np.asarray(s.node_types, np.int64)
+        act = np.asarray([int(p) if 0 <= p < self.N else 0 for p in pos], np.int64)
+        for a in range(self.A):
+            if fin[a] or not (0 <= pos[a] < self.N):
+                continue
+            taken = set()
+            for b2 in range(self.A):
+                if b2 != a:
+                    taken |= {v for v in visited[b2] if types[v] == -1}
+            goals = {v for v in self._todo(s, a) if v not in visited[a]}
+            allowed = [v for v in self.blocks[a] if v not in taken]
+            hop = self._first_hop(adj, int(pos[a]), goals, allowed, r + a)
+            if hop is None:  # pushed out of its block by other plan modes: use the whole graph
+                hop = self._first_hop(adj, int(pos[a]), goals, [v for v in range(self.N) if v not in taken], r + a)
+            if hop is not None and legal[a, hop]:
+                act[a] = hop
+            else:
+                idx = np.flatnonzero(legal[a])
+                if idx.size:
+                    act[a] = int(idx[r % idx.size])
+        return act
+
+    def _first_hop(self, adj, start, goals, allowed, r):
+        if not goals:
+            return None
+        allowed = set(allowed) | {start}
+        first = {start: None}
+        frontier = [start]
+        while frontier:
+            nxt = []
+            for u in frontier:
+                nbrs = [v for v in sorted(allowed) if adj[u, v] and v not in first]
+                if u == start and nbrs:
+                    k = r % len(nbrs)
+                    nbrs = nbrs[k:] + nbrs[:k]
+                for v in nbrs:
+                    if v in first:
+                        continue
+                    first[v] = v if u == start else first[u]
+                    nxt.append(v)
+            hit = [v for v in nxt if v in goals]
+            if hit:
+                return first[hit[0]]
+            frontier = nxt
+        return None
+
     # ------------------------------------------------------------------------------ C10
     def _components(self, adj, nodes):
         nodes = list(nodes)
@@ -238,8 +307,10 @@ class M(Model):
         pos = np.asarray(s0.positions, np.int64)
         if todo.shape != (self.A, self.K):
             return out + [("nodes_to_connect shape", str(todo.shape))]
-        if len(set(self._components(adj | adj.T, range(self.N)).values())) != 1:
-            out.append(("graph is not connected", ""))
+        # Observation, not asserted (the C10 statement asks for solvability, not for a connected graph): the
+        # edge that `merge_graphs` adds to link two sub graphs can be refused by the degree test, so the whole
+        # graph is occasionally disconnected (x_n13e20a3k2t40, reset key [3740947514, 705134704]).  That matters
+        # only if it separates the nodes of one agent, which is what the per-agent test below decides.
         for a in range(self.A):
             mine = todo[a].tolist()
             if len(set(mine)) != self.K or any(not (0 <= v < self.N) for v in mine):
@@ -254,6 +325,10 @@ class M(Model):
                 comp = self._components(adj, block)
                 if len({comp[v] for v in mine}) != 1:
                     out.append(("an agent's nodes are not connected inside its own node block", f"agent {a}: {mine}"))
+            whole = self._components(adj | adj.T, range(self.N))
+            if len({whole[v] for v in mine}) != 1:
+                out.append(("an agent's nodes are mutually unreachable in the graph (unsolvable instance)",
+                            f"agent {a}: {mine}"))
             if int(pos[a]) not in mine:
                 out.append(("agent does not start on one of its nodes", f"agent {a}: position {int(pos[a])} nodes {mine}"))
             path0 = np.asarray(s0.connected_nodes, np.int64)[a]
@@ -265,14 +340,11 @@ class M(Model):
             out.append(("initial step_count != 0", str(int(s0.step_count))))
         if np.asarray(s0.finished_agents).any():
             out.append(("agent finished at reset", ""))
-        structural = len(out)
-        # advertised size parameters
-        n_edges = int(np.triu(adj | adj.T, 1).sum())
-        if self.num_edges >= 0 and n_edges != self.num_edges:
-            out.append(("number of distinct edges differs from num_edges", f"{n_edges} vs num_edges={self.num_edges}"))
-        deg = (adj | adj.T).sum(1)
-        if self.max_degree >= 0 and deg.max() > self.max_degree:
-            out.append(("a node exceeds max_degree", f"node {int(deg.argmax())} has degree {int(deg.max())} > {self.max_degree}"))
+        # Observations, not asserted (`num_edges` is the *desired* number of edges and neither parameter is
+        # named in the C10 statement): `add_edge` tests degree > max_degree, so nodes reach max_degree + 1
+        # (n12e18a2k3t7, reset key [0, 0]: node 2 has degree 6 > 5, ~30% of instances); `make_random_edge`
+        # returns an unordered pair while the Cantor edge code is order-sensitive, so a reversed duplicate of
+        # an existing edge is accepted and the graph has fewer distinct edges than num_edges (~half of them).
         # per-agent edge view and mask agree with the graph at reset (all starts are typed nodes)
         ne = np.asarray(s0.node_edges, np.int64)
         want = np.where(adj, np.arange(self.N)[None, :], -1)
@@ -281,7 +353,7 @@ class M(Model):
                 out.append(("node_edges differs from the adjacency matrix at reset", f"agent {a}"))
                 break
         self._validated += 1
-        if not structural and self._validated % self.REPLAY_EVERY == 1:
+        if not out and self._validated % self.REPLAY_EVERY == 1:
             out += self._replay_dfs(s0, adj)
         return out
 
